@@ -205,7 +205,7 @@ def assignments(draw, ctx, in_rep=False):
         ops.append("?=")
     op = draw(st.sampled_from(ops))
     if attr in ctx.used_bool:
-        attr = draw(st.sampled_from([a for a in ATTRS if a not in ctx.used_bool] or ["d"]))
+        attr = draw(st.sampled_from([a for a in ATTRS if a not in ctx.used_bool] or ["e"]))  # "e": never boolean
         if op == "?=":
             op = "="
     if op == "?=":
@@ -308,7 +308,7 @@ def common_bodies(draw, ctx):
     if later and draw(st.integers(0, 9)) < 8:
         targets = [later[0]] + ([draw(st.sampled_from(later))] if draw(st.integers(0, 2)) == 0 else [])
         for tname in targets:
-            attr = draw(st.sampled_from([a for a in ATTRS if a not in ctx.used_bool] or ["d"]))
+            attr = draw(st.sampled_from([a for a in ATTRS if a not in ctx.used_bool] or ["e"]))  # "e": never boolean
             op = draw(st.sampled_from(["=", "=", "+=", "*="]))
             asg = ["asg", attr, op, ["ref", tname], draw(seps()) if op != "=" else None, False]
             ctx.assigned.add(attr)
